@@ -120,6 +120,14 @@ def sample_flow_cfg(rng, D=None, ctx=None):
                 "volume_preserving": bool(rng.random() < 0.3), "bn_between": bool(rng.random() < 0.3), "ctx": 0}
     n = int(rng.integers(1, 4))
     parts = [zoo.sample_R_cfg(rng, "quick", D, ctx) for _ in range(n)]
+    # at most one LogTanh: its inverse grows like exp(y / 0.013) (cut 3.5), two of them in a row send ordinary noise beyond the
+    # floating range (inf -> NaN conditioner parameters -> the splines' internal assertions fire while sampling)
+    seen_lt = False
+    for i, c in enumerate(parts):
+        if c["fam"] == "logtanh":
+            if seen_lt:
+                parts[i] = {"fam": "leakyrelu", "shape": c["shape"], "slope": 0.3}
+            seen_lt = True
     base = str(rng.choice(["standard", "standard", "cond_diag", "plain"])) if ctx else str(rng.choice(["standard", "standard", "plain"]))
     return {"flow": "generic", "D": D, "ctx": ctx, "parts": parts, "base": base,
             "embed": bool(ctx and rng.random() < 0.4)}
